@@ -42,3 +42,60 @@ fn c13_int_to_float() {
     std::mem::forget(rt);
 }
 }
+
+/// `digits(n, b)`: for 0 <= n < 4096 and every base -3..=11 the native terminates within the unwinding bound
+/// (at most 12 iterations: the bounded-work obligation is the unwinding assertion), yields an error value for bases
+/// below 2 and otherwise the little-endian digits of n
+native_harness! {
+#[kani::unwind(15)]
+fn c10_digits_terminates_x() {
+    let mut root = RootCompilationScope::<P, P, P>::new();
+    add_int_digits(&mut root).unwrap();
+    let nc = last_native(&root);
+    let rt: Rt = no_limits();
+    let ns = crate::runtime_scope::verif_kani::bare_scope();
+    let n: i64 = kani::any();
+    let b: i64 = kani::any();
+    kani::assume(n >= 0 && n < 4096 && b >= -3 && b <= 11);
+    let args = vec![int(LazyBigint::Short(n), &rt), int(LazyBigint::Short(b), &rt)];
+    let r = nc(&args, &ns, false, rt.clone());
+    match &r {
+        Ok(TailedEvalResult::Value(Ok(v))) => {
+            assert!(b >= 2, "digits are produced only for bases of at least 2");
+            match &v.value {
+                XValue::Native(nv) => match nv.as_ref()._as_any().downcast_ref::<XSequence<P, P, P>>() {
+                    Some(XSequence::Array(items)) => {
+                        let mut acc: i64 = 0;
+                        let mut pw: i64 = 1;
+                        let mut i = 0;
+                        while i < 13 {
+                            if i < items.len() {
+                                if let XValue::Int(LazyBigint::Short(d)) = &items[i].value {
+                                    assert!(*d >= 0 && *d < b, "each digit is in 0..b");
+                                    acc += d * pw;
+                                    pw *= b;
+                                }
+                            }
+                            i += 1;
+                        }
+                        assert!(acc == n && items.len() <= 12, "the digits denote n");
+                    }
+                    Some(XSequence::Empty) => assert!(n == 0, "only zero has no digits"),
+                    _ => assert!(false, "digits yields an array"),
+                },
+                _ => assert!(false, "digits yields a sequence"),
+            }
+        }
+        Ok(TailedEvalResult::Value(Err(_))) => assert!(b < 2, "an error value only for bases below 2"),
+        _ => assert!(false, "no violation without limits"),
+    }
+    kani::cover!(b == 2 && n == 4095, "twelve binary digits");
+    kani::cover!(b == 1, "base 1 refused");
+    kani::cover!(b == 10 && n > 999, "four decimal digits");
+    std::mem::forget(r);
+    std::mem::forget(args);
+    std::mem::forget(ns);
+    std::mem::forget(root);
+    std::mem::forget(rt);
+}
+}
